@@ -69,75 +69,244 @@ Proof.
   intros H. field. intros E. unfold Qeq in E. simpl in E. lia.
 Qed.
 
+(* the loop result, with the fuel abstract (keeps the kernel from unrolling it) *)
+Lemma tuplet_loop_inv fuel eps S qdur x a n :
+  iter2 fuel (tuplet_step eps S qdur) 2 = inr (a, n) -> x = 2 ->
+  n >= 2 /\ a = round_half_even (inject_Z n * S / qdur).
+Proof.
+  intros H _.
+  pose proof (iter2_inv (fun n => 2 <= n) (fun r => snd r >= 2 /\ fst r = round_half_even (inject_Z (snd r) * S / qdur))
+                (tuplet_step eps S qdur)) as L.
+  assert (Hs : forall x, 2 <= x -> match tuplet_step eps S qdur x with
+                                    | inl x' => 2 <= x'
+                                    | inr r => snd r >= 2 /\ fst r = round_half_even (inject_Z (snd r) * S / qdur)
+                                    end).
+  { intros y Hy. unfold tuplet_step. destruct (near_int eps (inject_Z y * S / qdur)); simpl; [split; [lia|reflexivity] | lia]. }
+  specialize (L Hs fuel 2 (Z.le_refl 2)). rewrite H in L. exact L.
+Qed.
+
+Lemma table_branch i ty dots qdur d div :
+  0 < div -> (qdur == inject_Z d / inject_Z div)%Q ->
+  nth_error sym_durs i = Some (ty, dots) -> (qdur == qnth durs i)%Q ->
+  exists v, sym_to_num (ty, dots, None) div = Some v /\ (v == inject_Z d)%Q.
+Proof.
+  intros Hdiv Eq EN Hx.
+  pose proof table_consistent_ok as TC. unfold table_consistent in TC.
+  apply andb_true_iff in TC as [TL TC]. apply Nat.eqb_eq in TL.
+  rewrite forallb_forall in TC.
+  assert (Hi : In i (seq 0 (List.length durs))).
+  { apply in_seq. split; [lia|]. rewrite Nat.add_0_l, <- TL. apply nth_error_Some. congruence. }
+  specialize (TC i Hi). rewrite EN in TC. unfold table_value in TC.
+  destruct (slookup ty label_durs) as [lab|] eqn:Hlab; cbn [opt_bind] in TC; [|discriminate].
+  destruct (nth_error dot_multipliers (Z.to_nat dots)) as [dm|] eqn:Hdm; cbn [opt_bind] in TC; [|discriminate].
+  unfold sym_to_num. rewrite Hlab. cbn [opt_bind]. rewrite Hdm. cbn [opt_bind].
+  change (0 =? 0) with true. cbv iota.
+  eexists. split; [reflexivity|].
+  apply Qeq_bool_iff in TC.
+  rewrite (table_hit_value (inject_Z div) lab dm (qnth durs i) qdur TC Hx).
+  rewrite Eq. apply div_qdur; assumption.
+Qed.
+
+Lemma tuplet_branch k a n qdur d div :
+  0 < div -> (qdur == inject_Z d / inject_Z div)%Q -> (0 < qdur)%Q ->
+  (k <= List.length (filter (fun x => Qltb x 4) straight_durs))%nat ->
+  n >= 2 -> (inject_Z n * qnth straight_durs k / qdur == inject_Z a)%Q ->
+  exists v, sym_to_num (nth k sym_straight ""%string, 0, Some (a, n)) div = Some v /\ (v == inject_Z d)%Q.
+Proof.
+  intros Hdiv Eq Hqpos Hle Hn Hx.
+  assert (Hq0 : ~ (qdur == 0)%Q) by (intros E; rewrite E in Hqpos; apply (Qlt_irrefl 0); exact Hqpos).
+  set (S := qnth straight_durs k) in *.
+  remember (nth k sym_straight ""%string) as tyk eqn:Etyk.
+  pose proof straight_consistent_ok as SC. unfold straight_consistent in SC.
+  apply andb_true_iff in SC as [SC DM]. rewrite forallb_forall in SC.
+  assert (Hk : In k (seq 0 (Datatypes.S (List.length (filter (fun x => Qltb x 4) straight_durs))))).
+  { apply in_seq. split; [lia|]. rewrite Nat.add_0_l. lia. }
+  specialize (SC k Hk).
+  rewrite <- Etyk in SC.
+  destruct (slookup tyk label_durs) as [lab|] eqn:Hlab; [|discriminate].
+  apply andb_true_iff in SC as [SC1 SC2]. apply Qeq_bool_iff in SC1. apply Qltb_lt in SC2.
+  destruct (nth_error dot_multipliers 0) as [dm|] eqn:Hdm; [|discriminate]. apply Qeq_bool_iff in DM.
+  fold S in SC1.
+  assert (HSpos : (0 < S)%Q) by (rewrite <- SC1; exact SC2).
+  assert (HS0 : ~ (S == 0)%Q) by (intros E; rewrite E in HSpos; apply (Qlt_irrefl 0); exact HSpos).
+  assert (Hnq : ~ (inject_Z n == 0)%Q) by (intros E; unfold Qeq in E; simpl in E; lia).
+  assert (Ha0 : a <> 0).
+  { intros ->. assert (R : (0 < inject_Z n * S / qdur)%Q).
+    { apply Qlt_shift_div_l; [assumption|]. rewrite Qmult_0_l.
+      apply Qmult_lt_0_compat; [unfold Qlt; simpl; lia|]. exact HSpos. }
+    rewrite Hx in R. apply (Qlt_irrefl 0); exact R. }
+  assert (En : (n =? 0) = false) by lia. assert (Ea : (a =? 0) = false) by lia.
+  unfold sym_to_num. rewrite Hlab. cbn [opt_bind]. change (Z.to_nat 0) with 0%nat. rewrite Hdm. cbn [opt_bind].
+  rewrite En, Ea.
+  eexists. split; [reflexivity|].
+  rewrite SC1, DM.
+  rewrite (tuplet_value (inject_Z div) S (inject_Z n) qdur (inject_Z a) Hq0 HS0 Hnq Hx).
+  rewrite Eq. apply div_qdur; assumption.
+Qed.
+
+(* the estimator and the exact-hit test with the three table searches and the fuel as
+   parameters: the case analysis below never makes the kernel look into the tables *)
+Definition estimate_core (fuel : nat) (eps qdur : Q) (i j k : nat) : est :=
+  if Qeq_bool qdur 0 then ENone else
+  if Qltb (Qabs (qdur - qnth durs i)) eps then sym_of_table i
+  else
+    if Qltb (Qabs (qdur - qnth composite_durs j)) eps then ENone
+    else if Qltb 4 qdur then ENone
+    else
+      match iter2 fuel (tuplet_step eps (qnth straight_durs k) qdur) 2 with
+      | inr (a, n) => ESome (nth k sym_straight ""%string, 0, Some (a, n))
+      | inl _ => EFuel
+      end.
+
+Definition exact_core (fuel : nat) (eps qdur : Q) (i k : nat) : bool :=
+  if Qltb (Qabs (qdur - qnth durs i)) eps then Qeq_bool qdur (qnth durs i)
+  else
+    match iter2 fuel (tuplet_step eps (qnth straight_durs k) qdur) 2 with
+    | inr (a, n) => Qeq_bool (inject_Z n * qnth straight_durs k / qdur) (inject_Z a)
+    | inl _ => false
+    end.
+
+Lemma estimate_q_core eps qdur :
+  estimate_q eps qdur = estimate_core tuplet_fuel eps qdur (find_nearest durs qdur)
+                          (find_nearest composite_durs qdur) (count_lt straight_durs qdur).
+Proof. reflexivity. Qed.
+
+Lemma exact_hit_core d div :
+  exact_hit d div = exact_core tuplet_fuel eps_default (inject_Z d / inject_Z div)
+                      (find_nearest durs (inject_Z d / inject_Z div)) (count_lt straight_durs (inject_Z d / inject_Z div)).
+Proof. reflexivity. Qed.
+
+Lemma core_exact fuel eps qdur i j k d div sd :
+  0 < div -> (qdur == inject_Z d / inject_Z div)%Q -> (0 < qdur)%Q ->
+  (Qltb 4 qdur = false -> (k <= List.length (filter (fun x => Qltb x 4) straight_durs))%nat) ->
+  estimate_core fuel eps qdur i j k = ESome sd -> exact_core fuel eps qdur i k = true ->
+  exists v, sym_to_num sd div = Some v /\ (v == inject_Z d)%Q.
+Proof.
+  intros Hdiv Eq' Hqpos Hk He Hx. unfold estimate_core in He. unfold exact_core in Hx.
+  destruct (Qeq_bool qdur 0) eqn:E0; [discriminate|].
+  destruct (Qltb (Qabs (qdur - qnth durs i)) eps) eqn:ET.
+  - unfold sym_of_table in He. destruct (nth_error sym_durs i) as [[ty dots]|] eqn:EN; [|discriminate].
+    injection He as <-. apply Qeq_bool_iff in Hx.
+    exact (table_branch i ty dots qdur d div Hdiv Eq' EN Hx).
+  - destruct (Qltb (Qabs (qdur - qnth composite_durs j)) eps); [discriminate|].
+    destruct (Qltb 4 qdur) eqn:E4; [discriminate|].
+    specialize (Hk eq_refl).
+    remember (nth k sym_straight ""%string) as tyk eqn:Etyk.
+    destruct (iter2 fuel (tuplet_step eps (qnth straight_durs k) qdur) 2) as [x|[a n]] eqn:EI; [discriminate|].
+    injection He as <-.
+    destruct (tuplet_loop_inv fuel _ _ _ 2 a n EI eq_refl) as [Hn Ha].
+    apply Qeq_bool_iff in Hx. rewrite Etyk.
+    exact (tuplet_branch k a n qdur d div Hdiv Eq' Hqpos Hk Hn Hx).
+Qed.
+
 Lemma estimate_exact_lemma d div sd :
   0 < d -> 0 < div -> estimate d div = ESome sd -> exact_hit d div = true ->
   exists v, sym_to_num sd div = Some v /\ (v == inject_Z d)%Q.
 Proof.
-  intros Hd Hdiv He Hx. unfold estimate, estimate_q in He. unfold exact_hit in Hx.
-  set (qdur := (inject_Z d / inject_Z div)%Q) in *.
-  assert (Hqpos : (0 < qdur)%Q).
-  { unfold qdur. apply Qlt_shift_div_l; [unfold Qlt; simpl; lia|]. unfold Qlt; simpl; lia. }
-  assert (Hq0 : ~ (qdur == 0)%Q) by (intros E; rewrite E in Hqpos; discriminate).
-  destruct (Qeq_bool qdur 0) eqn:E0; [discriminate|].
-  set (i := find_nearest durs qdur) in *.
-  destruct (Qltb (Qabs (qdur - qnth durs i)) eps_default) eqn:ET.
-  - (* table hit *)
-    unfold sym_of_table in He. destruct (nth_error sym_durs i) as [[ty dots]|] eqn:EN; [|discriminate].
-    injection He as <-.
-    pose proof table_consistent_ok as TC. unfold table_consistent in TC.
-    apply andb_true_iff in TC as [TL TC]. apply Nat.eqb_eq in TL.
-    rewrite forallb_forall in TC.
-    assert (Hi : In i (seq 0 (List.length durs))).
-    { apply in_seq. split; [lia|]. rewrite Nat.add_0_l, <- TL. apply nth_error_Some. congruence. }
-    specialize (TC i Hi). rewrite EN in TC. unfold table_value in TC.
-    destruct (slookup ty label_durs) as [lab|] eqn:Hlab; cbn [opt_bind] in TC; [|discriminate].
-    destruct (nth_error dot_multipliers (Z.to_nat dots)) as [dm|] eqn:Hdm; cbn [opt_bind] in TC; [|discriminate].
-    unfold sym_to_num. cbv beta iota zeta. rewrite Hlab. cbn [opt_bind]. rewrite Hdm. cbn [opt_bind].
-    change (0 =? 0) with true. cbv iota.
-    eexists. split; [reflexivity|].
-    apply Qeq_bool_iff in TC. apply Qeq_bool_iff in Hx.
-    rewrite (table_hit_value (inject_Z div) lab dm (qnth durs i) qdur TC Hx).
-    apply div_qdur; assumption.
-  - (* not a table hit *)
-    set (j := find_nearest composite_durs qdur) in *.
-    destruct (Qltb (Qabs (qdur - qnth composite_durs j)) eps_default); [discriminate|].
-    destruct (Qltb 4 qdur) eqn:E4; [discriminate|].
-    set (k := count_lt straight_durs qdur) in *.
-    set (S := qnth straight_durs k) in *.
-    remember (nth k sym_straight ""%string) as tyk eqn:Etyk.
-    pose proof (iter2_inv (fun n => 2 <= n) (fun r => snd r >= 2 /\ fst r = round_half_even (inject_Z (snd r) * S / qdur))
-                  (tuplet_step eps_default S qdur)) as L.
-    assert (Hs : forall x, 2 <= x -> match tuplet_step eps_default S qdur x with
-                                      | inl x' => 2 <= x'
-                                      | inr r => snd r >= 2 /\ fst r = round_half_even (inject_Z (snd r) * S / qdur)
-                                      end).
-    { intros x Hx2. unfold tuplet_step. destruct (near_int eps_default (inject_Z x * S / qdur)); simpl; [split; [lia|reflexivity] | lia]. }
-    specialize (L Hs tuplet_fuel 2 (Z.le_refl 2)).
-    destruct (iter2 tuplet_fuel (tuplet_step eps_default S qdur) 2) as [x|[a n]]; [discriminate|].
-    injection He as <-. simpl in L. destruct L as [Hn Ha].
-    apply Qeq_bool_iff in Hx.
-    pose proof straight_consistent_ok as SC. unfold straight_consistent in SC.
-    apply andb_true_iff in SC as [SC DM]. rewrite forallb_forall in SC.
-    assert (Hk : In k (seq 0 (Datatypes.S (List.length (filter (fun x => Qltb x 4) straight_durs))))).
-    { apply in_seq. split; [lia|]. rewrite Nat.add_0_l.
-      pose proof (count_lt_le4 qdur E4) as Hle. fold k in Hle. lia. }
-    specialize (SC k Hk).
-    rewrite <- Etyk in SC.
-    destruct (slookup tyk label_durs) as [lab|] eqn:Hlab; [|discriminate].
-    apply andb_true_iff in SC as [SC1 SC2]. apply Qeq_bool_iff in SC1. apply Qltb_lt in SC2.
-    destruct (nth_error dot_multipliers 0) as [dm|] eqn:Hdm; [|discriminate]. apply Qeq_bool_iff in DM.
-    assert (HS0 : ~ (S == 0)%Q) by (intros E; fold S in SC1; rewrite <- SC1 in E; rewrite E in SC2; discriminate).
-    assert (Hnq : ~ (inject_Z n == 0)%Q) by (intros E; unfold Qeq in E; simpl in E; lia).
-    assert (Ha0 : a <> 0).
-    { intros ->. assert (R : (0 < inject_Z n * S / qdur)%Q).
-      { apply Qlt_shift_div_l; [assumption|]. rewrite Qmult_0_l.
-        apply Qmult_lt_0_compat; [unfold Qlt; simpl; lia|]. fold S in SC1. rewrite <- SC1. exact SC2. }
-      rewrite Hx in R. discriminate. }
-    assert (En : (n =? 0) = false) by lia. assert (Ea : (a =? 0) = false) by lia.
-    unfold sym_to_num. cbv beta iota zeta. rewrite Hlab. cbn [opt_bind]. change (Z.to_nat 0) with 0%nat. rewrite Hdm. cbn [opt_bind].
-    rewrite En, Ea.
-    eexists. split; [reflexivity|].
-    fold S in SC1. rewrite SC1, DM.
-    rewrite (tuplet_value (inject_Z div) S (inject_Z n) qdur (inject_Z a) Hq0 HS0 Hnq Hx).
-    apply div_qdur; assumption.
+  intros Hd Hdiv He Hx. unfold estimate in He. rewrite estimate_q_core in He. rewrite exact_hit_core in Hx.
+  assert (Hqpos : (0 < inject_Z d / inject_Z div)%Q).
+  { apply Qlt_shift_div_l; [unfold Qlt; simpl; lia|]. unfold Qlt; simpl; lia. }
+  refine (core_exact _ _ _ _ _ _ d div sd Hdiv (Qeq_refl _) Hqpos _ He Hx).
+  apply count_lt_le4.
 Qed.
+
+
+(* ---- the eps tolerance: how far a reported value can be from the numeric duration *)
+
+(* the loop stops only at an n whose quotient is within eps of the integer it reports *)
+Lemma tuplet_loop_near fuel eps S qdur a n :
+  iter2 fuel (tuplet_step eps S qdur) 2 = inr (a, n) ->
+  near_int eps (inject_Z n * S / qdur) = true.
+Proof.
+  intros H.
+  pose proof (iter2_inv (fun _ => True) (fun r => near_int eps (inject_Z (snd r) * S / qdur) = true)
+                (tuplet_step eps S qdur)) as L.
+  assert (Hs : forall x, True -> match tuplet_step eps S qdur x with
+                                 | inl _ => True
+                                 | inr r => near_int eps (inject_Z (snd r) * S / qdur) = true
+                                 end).
+  { intros y _. unfold tuplet_step. destruct (near_int eps (inject_Z y * S / qdur)) eqn:E; simpl; [exact E|exact I]. }
+  specialize (L Hs fuel 2 I). rewrite H in L. exact L.
+Qed.
+
+Lemma table_branch_value i ty dots div :
+  nth_error sym_durs i = Some (ty, dots) ->
+  exists tv v, table_value (ty, dots, None) = Some tv /\ (tv == qnth durs i)%Q
+               /\ sym_to_num (ty, dots, None) div = Some v /\ (v == inject_Z div * tv)%Q.
+Proof.
+  intros EN.
+  pose proof table_consistent_ok as TC. unfold table_consistent in TC.
+  apply andb_true_iff in TC as [TL TC]. apply Nat.eqb_eq in TL.
+  rewrite forallb_forall in TC.
+  assert (Hi : In i (seq 0 (List.length durs))).
+  { apply in_seq. split; [lia|]. rewrite Nat.add_0_l, <- TL. apply nth_error_Some. congruence. }
+  specialize (TC i Hi). rewrite EN in TC. unfold table_value in *.
+  destruct (slookup ty label_durs) as [lab|] eqn:Hlab; cbn [opt_bind] in *; [|discriminate].
+  destruct (nth_error dot_multipliers (Z.to_nat dots)) as [dm|] eqn:Hdm; cbn [opt_bind] in *; [|discriminate].
+  apply Qeq_bool_iff in TC.
+  exists (lab * dm)%Q. eexists. split; [reflexivity|]. split; [exact TC|].
+  unfold sym_to_num. rewrite Hlab. cbn [opt_bind]. rewrite Hdm. cbn [opt_bind].
+  change (0 =? 0) with true. cbv iota. split; [reflexivity|]. field.
+Qed.
+
+Lemma core_within_eps fuel eps qdur i j k sd :
+  estimate_core fuel eps qdur i j k = ESome sd ->
+  match sd with
+  | (ty, dots, None) => nth_error sym_durs i = Some (ty, dots) /\ (Qabs (qdur - qnth durs i) < eps)%Q
+  | (ty, dots, Some (a, n)) =>
+      ty = nth k sym_straight ""%string /\ dots = 0 /\ n >= 2
+      /\ a = round_half_even (inject_Z n * qnth straight_durs k / qdur)
+      /\ (Qabs (inject_Z n * qnth straight_durs k / qdur - inject_Z a) <= eps)%Q
+  end.
+Proof.
+  intros He. unfold estimate_core in He.
+  destruct (Qeq_bool qdur 0) eqn:E0; [discriminate|].
+  destruct (Qltb (Qabs (qdur - qnth durs i)) eps) eqn:ET.
+  - unfold sym_of_table in He. destruct (nth_error sym_durs i) as [[ty dots]|] eqn:EN; [|discriminate].
+    injection He as <-. split; [reflexivity|]. apply Qltb_lt. exact ET.
+  - destruct (Qltb (Qabs (qdur - qnth composite_durs j)) eps); [discriminate|].
+    destruct (Qltb 4 qdur) eqn:E4; [discriminate|].
+    remember (nth k sym_straight ""%string) as tyk eqn:Etyk.
+    destruct (iter2 fuel (tuplet_step eps (qnth straight_durs k) qdur) 2) as [x|[a n]] eqn:EI; [discriminate|].
+    injection He as <-.
+    destruct (tuplet_loop_inv fuel _ _ _ 2 a n EI eq_refl) as [Hn Ha].
+    pose proof (tuplet_loop_near fuel _ _ _ a n EI) as Hnear.
+    repeat split; try assumption.
+    unfold near_int in Hnear. apply Qle_bool_iff in Hnear. rewrite <- Ha in Hnear. exact Hnear.
+Qed.
+
+Lemma estimate_table_within_eps_lemma d div ty dots :
+  estimate d div = ESome (ty, dots, None) ->
+  exists tv v, table_value (ty, dots, None) = Some tv
+    /\ (Qabs (inject_Z d / inject_Z div - tv) < eps_default)%Q
+    /\ sym_to_num (ty, dots, None) div = Some v /\ (v == inject_Z div * tv)%Q.
+Proof.
+  intros He. unfold estimate in He. rewrite estimate_q_core in He.
+  apply core_within_eps in He. destruct He as [EN Hlt].
+  destruct (table_branch_value _ ty dots div EN) as (tv & v & T1 & T2 & T3 & T4).
+  exists tv, v. split; [exact T1|]. split; [|split; assumption].
+  rewrite T2. exact Hlt.
+Qed.
+
+Lemma estimate_tuplet_within_eps_lemma d div ty dots a n :
+  estimate d div = ESome (ty, dots, Some (a, n)) ->
+  dots = 0 /\ n >= 2 /\
+  exists S, S = qnth straight_durs (count_lt straight_durs (inject_Z d / inject_Z div))
+    /\ a = round_half_even (inject_Z n * S / (inject_Z d / inject_Z div))
+    /\ (Qabs (inject_Z n * S / (inject_Z d / inject_Z div) - inject_Z a) <= eps_default)%Q.
+Proof.
+  intros He. unfold estimate in He. rewrite estimate_q_core in He.
+  apply core_within_eps in He. destruct He as (_ & Hd & Hn & Ha & Hle).
+  split; [exact Hd|]. split; [exact Hn|]. eexists. split; [reflexivity|]. split; assumption.
+Qed.
+
+(* the strict reading of O4 fails inside the domain 1..960: witnesses for the two known findings *)
+Lemma estimate_eps_refuted_lemma :
+  exists d div sd v, 1 <= div <= 960 /\ 0 < d /\ estimate d div = ESome sd /\ sym_to_num sd div = Some v
+                     /\ Qeq_bool v (inject_Z d) = false.
+Proof. exists 15, 950, ("256th"%string, 0, None). eexists. vm_compute. repeat split; discriminate. Qed.
+
+Lemma estimate_tuplet_eps_refuted_lemma :
+  exists d div sd v, 1 <= div <= 960 /\ 0 < d /\ estimate d div = ESome sd /\ sym_to_num sd div = Some v
+                     /\ Qeq_bool v (inject_Z d) = false.
+Proof. exists 1007, 480, ("whole"%string, 0, Some (143, 75)). eexists. vm_compute. repeat split; discriminate. Qed.
